@@ -259,8 +259,10 @@ where
 }
 
 fn make_abbreviated_namespace(namespace: &str, existing_namespaces: &[Rc<Namespace>]) -> String {
+    // the abbreviation becomes an XML prefix and part of a Rust module name: letters and digits only
     fn take_three_chars_max(namespace: &str) -> String {
-        namespace.chars().filter(|c| c != &'.').take(3).collect()
+        let abbreviation: String = namespace.chars().filter(|c| c.is_alphanumeric()).take(3).collect();
+        if abbreviation.is_empty() { "ns".to_string() } else { abbreviation }
     }
 
     let mut append: Option<u8> = None;
